@@ -670,4 +670,28 @@ def Root.init : Root :=
   { nodes := #[some node], tracker := none, current := some 0, rootNode := some 0, queue := [],
     batching := false, nextTag := 0, trace := [] }
 
+/-- `Root::reinit` (what `RootHandle::dispose` calls, and what every server render starts with): dispose
+the root node — cleanups run, the whole ownership tree goes —, reset tracker / queue / batching, DRAIN what
+is left in the arena (nodes that cleanups created during the teardown, repair D20: the arena itself is
+kept, so no key is ever handed out twice), and create a fresh root node, which becomes the current scope. -/
+def reinit (fuel : Nat) (r : Root) : Except Panic Root :=
+  match (match r.rootNode with
+         | some id => disposeNode fuel r id
+         | none => .ok r) with
+  | .error e => .error e
+  | .ok r =>
+    let nodes := r.nodes.map fun _ => none
+    let node : Node := { value := some 0, callback := none, children := [], parent := none, dependents := [], dependencies := [], cleanups := [], context := [], dirty := false, mark := .none }
+    .ok { r with nodes := nodes.push (some node), tracker := none, current := some nodes.size, rootNode := some nodes.size,
+                 queue := [], batching := false }
+
+/-- `reinit` before repair D20: the arena is REPLACED (`nodes.take()`), so the new root node gets key 0
+again and every handle that survived from before names a node of the new generation. -/
+def reinitOld (fuel : Nat) (r : Root) : Except Panic Root :=
+  match (match r.rootNode with
+         | some id => disposeNode fuel r id
+         | none => .ok r) with
+  | .error e => .error e
+  | .ok r => .ok { Root.init with nextTag := r.nextTag, trace := r.trace }
+
 end SycVerif.Reactive
